@@ -4,12 +4,22 @@
        named slots and changes nothing but temporaries; the temporaries the allocator hands out are disjoint;
    (2) context independence of the Lean reference semantics (`sem_context_free`, Lang/Sem.lean).
    The emit model is compared word for word with the real emit.c / regalloc.c on every run (harness/C02/emit_wrap.c).
-   No theorem is claimed for compile.c / specials.c. -/
+   (3) session 3: compile.c / specials.c have an executable model for a core fragment (Compile/Model.lean, compared word for
+       word with the real compiler on every run).  PROVED about it and around it: the regenerated special-form table and
+       statement shapes it mirrors (`compile_model_matches_source`); the Lean VM decodes and executes every instruction
+       word the emit layer and the compiler model produce as the instruction it stands for (`vm_executes_emit_words`,
+       `vm_executes_compiler_words`: the emit machine is identified with `Exec.step` on the shared opcodes); at the
+       instruction level the VM and the reference semantics agree on the rules of the language: core-function call incl.
+       error value and error position (`call_agrees`), conditional jump vs `truthy`, argument order of the pushes, tuple /
+       array construction, return; core functions cannot see frames or pending arguments (`callPrim_frame_independent`).
+       NOT proved: the compositional compile-correctness theorem (see `compile_correct_partial` below for the exact gap). -/
 import JanetModel.Emit.Proofs
 import JanetModel.Bytecode.Exec
 import JanetModel.Lang.SemProps
 import JanetModel.Bytecode.ExecFrame
 import JanetModel.Gen.FiberFrame
+import JanetModel.Gen.Compile
+import JanetModel.Compile.Frame
 namespace JanetModel.Props.C02
 open JanetModel.Emit
 
@@ -145,6 +155,131 @@ theorem sem_context_free (n : Nat) (cur : Pos) (env : Env) (e : Expr) (s : SS)
 example : (match eval 10 {} [] (ctxArg (.lit (.kw "v"))) {} with | .ok (.kw x, _) _ => x == "v" | _ => false) = true := by
   decide
 
+/-- `sem_context_free`, seventh context: body of a function in NON-tail position, value used through a local
+    (`((fn [] (def r_ e) r_))`, context `fn_used` of the check) -/
+theorem sem_context_free_fn_used (n : Nat) (cur : Pos) (env : Env) (e : Expr) (s : SS) :
+    eval (n + 6) cur env (ctxFnUsed e) s =
+      fnUsedResult env (eval (n + 2) cur env e (withLam2 s env [wrapForm [.sym "def", .sym "r_", e], .sym "r_"])) :=
+  ctx_fn_used n cur env e s
+
+/-- non-vacuity: `((fn [] (def r_ :v) r_))` evaluates to `:v` and leaves one box -/
+example : (match eval 10 {} [] (ctxFnUsed (.lit (.kw "v"))) {} with | .ok (.kw x, _) s => x == "v" && s.boxes.size == 1 | _ => false) = true := by
+  decide
+
 end Sem
+
+/-! ### the compiler model (Compile/Model.lean = compile.c + specials.c, core fragment) -/
+section Compile
+open JanetModel.Compile JanetModel.Lang JanetModel.Bytecode.Exec JanetModel.Gen.Bytecode
+
+/-- regenerated from specials.c / compile.c / emit.c on every run: the special-form table the model dispatches on, and the
+    presence of every statement the model mirrors one for one (which `do` statements are dropped and freed, tail-call test,
+    near-hint test of the target, alias / copy decision of `namelocal`, jump range checks and label patches, break tags,
+    loop-as-function rewrite, `fn` body flags, register limit) -/
+theorem compile_model_matches_source :
+    JanetModel.Compile.specials = JanetModel.Gen.Compile.specialNames ∧
+    JanetModel.Gen.Compile.specialHandlers.map (·.1) = JanetModel.Gen.Compile.specialNames ∧
+    JanetModel.Gen.Compile.allShapes = true := by decide
+
+/-- identification of the emit machine with the VM: the word `MI.word mi` of every load / move instruction of the emit layer
+    (near / far moves, the five constant loads, ref-array load, ref cell get / put) is executed by `Exec.step` exactly as
+    `vmExecMI` — the VM-state reading of `Emit/Machine.exec` — says.  (Upvalue loads / stores are not covered.) -/
+theorem vm_executes_emit_words (p : Program) (st : State) (mi : MI) (hr : MI.inRange mi)
+    (hf : (curDef p st).code[st.cur.pc]? = some mi.word) : step p st = vmExecMI p st mi :=
+  step_mi p st mi hr hf
+
+/-- the instructions compile.c / specials.c emit raw: jump (24-bit signed offset, both directions), return-nil, call,
+    tail call, load-self, closure -/
+theorem vm_executes_compiler_words (p : Program) (st : State) :
+    (∀ off : Int, -8388608 ≤ off → off ≤ 8388607 → (curDef p st).code[st.cur.pc]? = some (CI.jump off).word → step p st = .next (st.jump off)) ∧
+    ((curDef p st).code[st.cur.pc]? = some CI.retNil.word → step p st = doReturn p st .nil) ∧
+    (∀ d f, d < 256 → f < 65536 → (curDef p st).code[st.cur.pc]? = some (CI.call d f).word → step p st = doCall p st d (st.getReg f)) ∧
+    (∀ r, r < 16777216 → (curDef p st).code[st.cur.pc]? = some (CI.tailcall r).word → step p st = doTailcall p st (st.getReg r)) ∧
+    (∀ r, r < 16777216 → (curDef p st).code[st.cur.pc]? = some (CI.loadSelf r).word → step p st = .next (st.setAdv r (.fn st.cur.self))) ∧
+    (∀ r d, r < 256 → d < 65536 → (curDef p st).code[st.cur.pc]? = some (CI.closure r d).word → step p st = doClosure p st r d) :=
+  ⟨fun off h1 h2 hf => step_jump p st off h1 h2 hf, step_retNil p st, fun d f hd hfr hf => step_call p st d f hd hfr hf,
+   fun r hr hf => step_tailcall p st r hr hf, fun r hr hf => step_loadSelf p st r hr hf, fun r d hr hd hf => step_closure p st r d hr hd hf⟩
+
+/-- a core function sees and changes only the world (heap, effect trace, result cell): frames and pending arguments are out
+    of its reach.  (By construction: `callPrim` is `callPrimW` on `st.world`.) -/
+theorem callPrim_frame_independent (name : String) (args : List Value) (st : State) :
+    callPrim name args st =
+      (match callPrimW name args st.world with
+       | .ok (v, w) => .ok (v, st.withWorld w) | .rt => .rt | .user v => .user v | .unsup w => .unsup w) := rfl
+
+/-- `JOP_CALL` of a core function against `Lang/Sem.applyFn`: same value and world, or the same error value attributed to the
+    source-map entry of the call instruction, or both outside the model -/
+theorem call_agrees (p : Program) (st : State) (s : SS) (n d f : Nat) (name : String) (hna : name ≠ "apply")
+    (hd : d < 256) (hfr : f < 65536)
+    (hcode : (curDef p st).code[st.cur.pc]? = some (CI.call d f).word)
+    (hfn : st.getReg f = .cfun name) (hw : st.world = s.st.world) :
+    (match callPrimW name st.args.toList st.world with
+     | .ok (v, w) =>
+        step p st = .next ((({ st with args := #[] } : State).withWorld w).setAdv d v) ∧
+        applyFn (n + 1) (curPos p st) (.cfun name) st.args.toList s = .ok v { s with st := s.st.withWorld w }
+     | .rt =>
+        step p st = .err JanetModel.Bytecode.Exec.rtErr (curPos p st) st ∧
+        applyFn (n + 1) (curPos p st) (.cfun name) st.args.toList s = .err Lang.rtErr (curPos p st) s
+     | .user e =>
+        step p st = .err e (curPos p st) st ∧ applyFn (n + 1) (curPos p st) (.cfun name) st.args.toList s = .err e (curPos p st) s
+     | .unsup why =>
+        step p st = .unsup why ∧ applyFn (n + 1) (curPos p st) (.cfun name) st.args.toList s = .stop why) :=
+  JanetModel.Compile.call_agrees p st s n d f name hna hd hfr hcode hfn hw
+
+/-- conditional jump (what `janetc_if` / `janetc_while` emit) = `truthy` test of `Lang/Sem`; pushes append in operand order;
+    return; tuple / array construction from the pending arguments (same `allocV` as `Lang/Sem`) -/
+theorem control_and_data_agree (p : Program) (st : State) :
+    (∀ a off, a < 256 → off < 32768 → (curDef p st).code[st.cur.pc]? = some (MI.pay Op.jumpIfNot.toNat .si false [a] off).word →
+        step p st = .next (if truthy (st.getReg a) then st.adv else st.jump (off : Int))) ∧
+    (∀ r, r < 16777216 → (curDef p st).code[st.cur.pc]? = some (MI.pay Op.return.toNat .s false [r] 0).word →
+        step p st = doReturn p st (st.getReg r)) ∧
+    (∀ r, r < 16777216 → (curDef p st).code[st.cur.pc]? = some (MI.pay Op.push.toNat .s false [r] 0).word →
+        step p st = .next ({ st with args := st.args.push (st.getReg r) } : State).adv) ∧
+    (∀ a e, a < 256 → e < 65536 → (curDef p st).code[st.cur.pc]? = some (MI.pay Op.push2.toNat .ss false [a, e] 0).word →
+        step p st = .next ({ st with args := (st.args.push (st.getReg a)).push (st.getReg e) } : State).adv) ∧
+    (∀ a b c, a < 256 → b < 256 → c < 256 → (curDef p st).code[st.cur.pc]? = some (MI.pay Op.push3.toNat .sss false [a, b, c] 0).word →
+        step p st = .next ({ st with args := ((st.args.push (st.getReg a)).push (st.getReg b)).push (st.getReg c) } : State).adv) ∧
+    (∀ r, r < 16777216 → (curDef p st).code[st.cur.pc]? = some (MI.pay Op.makeTuple.toNat .s true [r] 0).word →
+        step p st = .next (({ st with args := #[] } : State).setAdv r (.tuple st.args.toList false))) ∧
+    (∀ r, r < 16777216 → (curDef p st).code[st.cur.pc]? = some (MI.pay Op.makeArray.toNat .s true [r] 0).word →
+        step p st = .next ((allocV ({ st with args := #[] } : State) (.arr st.args.toList.toArray) Value.arr).2.setAdv r
+                            (allocV ({ st with args := #[] } : State) (.arr st.args.toList.toArray) Value.arr).1)) :=
+  ⟨fun a off ha ho h => jumpIfNot_agrees p st a off ha ho h, fun r hr h => return_agrees p st r hr h,
+   fun r hr h => push_agrees p st r hr h, fun a e ha he h => push2_agrees p st a e ha he h,
+   fun a b c ha hb hc h => push3_agrees p st a b c ha hb hc h, fun r hr h => makeTuple_agrees p st r hr h,
+   fun r hr h => makeArray_agrees p st r hr h⟩
+
+/-- running: a state reached by continuing steps finishes as the state it reached does (so per-segment results compose) -/
+theorem run_of_reach (p : Program) (a b : State) (h : Reach p a b) (fuel : Nat) : ∃ fuel', run p fuel' a = run p fuel b :=
+  JanetModel.Compile.run_of_reach h fuel
+
+/-- `compile_correct` — executing the code `Compile.cValue` emits for `e`, from any frame whose registers hold the boxes of
+    `e`'s environment, reaches the value / world / error + position that `Lang.eval` gives `e` — is NOT proved.  What is
+    proved of it (this theorem): its two atomic cases at the model level, i.e. a literal and a global function symbol compile
+    to a constant slot, emit no code and leave scopes, buffer and source-map untouched.
+    Missing for the theorem, exactly: (1) the allocator discipline of `cValue` by induction on the form (registers
+    allocated at entry stay allocated; a target / temporary is a register that was free at entry; the result slot is a
+    constant, a named local, or a register free at entry and allocated at exit) — needed so that sibling operands and live
+    locals survive; (2) the VM run of the sequences `W.emitS/SS/SSS/SI` and `W.copy` produce in near mode, from the step
+    lemmas above; (3) stability of constant-pool indices and of the value table under later appends; (4) code layout: the
+    segments of sub-forms inside the final code, untouched by the label patches of enclosing `if` / `while`; (5) the
+    induction itself for calls, `do`, `if`, `def`, then `var`/`set`, `while`/`break`, `fn`.  Until then every construct stays
+    translation-validated: model = real compiler word for word, real bytecode run by the Lean VM = real VM = `Lang/Sem`. -/
+theorem compile_correct_partial (fuel : Nat) (opts : Fopts) (c : CState) (hopts : opts.tail = false ∧ opts.hint = none) :
+    (∀ v : Value, (match v with | .nil | .bool _ | .num _ | .str _ | .kw _ | .sym _ | .cfun _ => True | _ => False) →
+        cValue (fuel + 1) opts (.lit v) c = some ((constSlot c v).1, { (constSlot c v).2 with cur := c.cur }) ∧
+        ((constSlot c v).2).buf = c.buf ∧ ((constSlot c v).2).scopes = c.scopes ∧ ((constSlot c v).1).cflag = true) ∧
+    (∀ x : String, searchScopes x c.scopes 0 false true = none → c.globs x = some .cfun →
+        cValue (fuel + 1) opts (.sym x) c = some ((constSlot c (.cfun x)).1, { (constSlot c (.cfun x)).2 with cur := c.cur })) := by
+  obtain ⟨ht, hh⟩ := hopts
+  refine ⟨fun v hv => ?_, fun x hs hg => ?_⟩
+  · have hb : ((constSlot c v).2).buf = c.buf ∧ ((constSlot c v).2).scopes = c.scopes ∧ ((constSlot c v).1).cflag = true := by
+      unfold constSlot kOf
+      cases v <;> simp [cslot] <;> (repeat' split) <;> simp_all
+    refine ⟨?_, hb⟩
+    cases v <;> simp_all [cValue]
+  · simp [cValue, resolve, hs, globalSlot, hg, ht, hh]
+
+end Compile
 
 end JanetModel.Props.C02
